@@ -15,7 +15,7 @@ RULES = {
 }
 CONTROL_REV = '078b142'  # thorough tier: the rules must still report the defects found (and since fixed) on the original tree
 CONTROLS = [('C18.R2', 'Architecture::argmax#shape')]
-FLOORS = {'C18.R1': 8, 'C18.R2': 6, 'C18.R3': 15, 'C18.R4': 1}
+FLOORS = {'C18.R1': 8, 'C18.R2': 13, 'C18.R3': 15, 'C18.R4': 1}
 EXPLANATION = 'Guard and table rules over the Architecture builders and the npz reader.'
 DOES_NOT_DECIDE = ('the split-composition clause of extract_range (value-level), ordering of names for non-zero-padded indices (not settled by the dialect\'s '
                    'documentation), minimum dimension for argmax')
@@ -121,6 +121,16 @@ def run(ctx):
         (ctx.ok if ok else ctx.bad)('C18.R1', q, 'Ok iff ' + what if ok else '%s does not test %s' % (q, what), b.span)
     read_layers(ctx, F)
     extract_range(ctx, F)
+    # every accepted architecture distills without a dimension panic: the distiller's running dimension follows the same table as the
+    # tracked shape (rule instances shared with C01.R2)
+    from ..core import Ctx
+    from . import c01
+    sub = Ctx(ctx.facts, ctx.tier, ctx.prop)
+    c01.run(sub)
+    for i in sub.insts:
+        if i.rule == 'C01.R2':
+            i.rule = 'C18.R2'
+            ctx.insts.append(i)
 
 
 def extract_range(ctx, F):
@@ -258,7 +268,11 @@ def read_layers(ctx, F):
             ok = is_call(idx, 'Iterator::next') and idx[2][0][0] == 'agg' and idx[2][0][2][0] == ('const', 0)
             # upper bound is the running dim assigned from the Linear just pushed
             ub = idx[2][0][2][1] if ok else None
-            okd = ub is not None and any(is_call(x, 'AffFuncBase::outdim') for x in walk(ub))
+            # the width is the output dimension of the linear layer read last (running variable set in the linear.weights arm), or the
+            # initial 0: every outdim() inside it applies to an AffFunc built from the npz entries
+            outs = [x for x in walk(ub) if is_call(x, 'AffFuncBase::outdim')] if ub is not None else []
+            okd = bool(outs) and all(is_call(x[2][0], 'AffFuncBase::from_mats') and any(is_call(y, 'NpzReader::by_name') for y in walk(x[2][0])) for x in outs) \
+                and not any(is_call(x, '[T]::last', 'Vec::last', 'Vec::len') for x in walk(ub))
             if ok and okd:
                 ctx.ok('C18.R3', site, 'one Layer::%s per neuron 0..dim of the preceding linear layer' % variant, t['span'])
             else:
